@@ -25,6 +25,8 @@ import (
 
 	"github.com/cinar/indicator/v2/asset"
 	"github.com/cinar/indicator/v2/helper"
+	"github.com/cinar/indicator/v2/trend"
+	"github.com/cinar/indicator/v2/volume"
 )
 
 func init() { registry["C03"] = runC03 }
@@ -534,8 +536,96 @@ func (c *Ctx) countFlow(kind string, v c03Variant, closed, clean bool) {
 	}
 }
 
+// c03Shape: a real indicator against the network coq/Kahn/Patterns.v gives for it (same sizes).
+func (c *Ctx) c03Shape(kind string, params []int) {
+	var inst reflect.Value
+	var term string
+	var lens []int
+	k := params[len(params)-1]
+	v := c03Variant{InCap: k, Procs: 4}
+	switch kind {
+	case "vwap": // p, closings, volumes, k
+		inst = reflect.ValueOf(volume.NewVwapWithPeriod[float64](params[0]))
+		lens = []int{params[1], params[2]}
+		term = fmt.Sprintf("vwap_desc %d %d %d %d", params[0], params[1], params[2], k)
+	case "mfm": // highs, lows, closings, k
+		inst = reflect.ValueOf(volume.NewMfm[float64]())
+		lens = []int{params[0], params[1], params[2]}
+		term = fmt.Sprintf("mfm_desc %d %d %d %d", params[0], params[1], params[2], k)
+	case "dema": // p1, p2, n, k
+		d := trend.NewDema[float64]()
+		d.Ema1.Period, d.Ema2.Period = params[0], params[1]
+		inst = reflect.ValueOf(d)
+		lens = []int{params[2]}
+		term = fmt.Sprintf("dema_desc %d %d %d %d %d", params[0], params[1], params[1], params[2], k)
+	case "apo": // fast, slow, n, k
+		a := trend.NewApo[float64]()
+		a.FastPeriod, a.SlowPeriod = params[0], params[1]
+		inst = reflect.ValueOf(a)
+		lens = []int{params[2]}
+		term = fmt.Sprintf("apo_desc %d %d %d %d", params[0], params[1], params[2], k)
+	}
+	args := make([]reflect.Value, len(lens))
+	nmax := 0
+	for i, n := range lens {
+		xs := make([]float64, n)
+		for j := range xs {
+			xs[j] = float64(1 + c.Rng.IntN(50))
+		}
+		args[i] = reflect.ValueOf(pacedChan(xs, v))
+		nmax = max(nmax, n)
+	}
+	raw, closed, clean := runPaced(inst, args, v, nmax)
+	var outLens []int
+	if closed {
+		for _, o := range raw {
+			outLens = append(outLens, len(o))
+		}
+	}
+	c.Count("shape/" + kind)
+	if !closed {
+		c.Count("shape runs that deadlock (unequal inputs or inadmissible periods)")
+	}
+	fuel := 200 + 40*(nmax+10)
+	c.AddCase(fmt.Sprintf("KShape (%s) %d%%nat %s %s %s", natArgs(term), fuel, coqBool(closed), coqBool(clean), coqNats(outLens)),
+		CaseInfo{Subject: "network of " + kind, Desc: fmt.Sprintf("%s %v: outputs closed=%v, no goroutine left=%v, lengths %v", kind, params, closed, clean, outLens),
+			Input: map[string]any{"shape": kind, "params": params}}, nmax > 0)
+}
+
+// natArgs appends %nat to the numeric arguments of a Patterns.v constructor application.
+func natArgs(term string) string {
+	parts := strings.Fields(term)
+	for i := 1; i < len(parts); i++ {
+		parts[i] += "%nat"
+	}
+	return strings.Join(parts, " ")
+}
+
+func (c *Ctx) c03Shapes(n int) {
+	for i := 0; i < n; i++ {
+		k := []int{0, 0, 1, 4}[c.Rng.IntN(4)]
+		ln := []int{0, 1, 2, 5, 12, 30, 60}[c.Rng.IntN(7)]
+		other := ln
+		if c.Rng.IntN(3) == 0 {
+			other = []int{0, 1, 3, 9, 25, 70}[c.Rng.IntN(6)]
+		}
+		switch c.Rng.IntN(4) {
+		case 0:
+			c.c03Shape("vwap", []int{1 + c.Rng.IntN(9), ln, other, k})
+		case 1:
+			ls := []int{ln, ln, ln}
+			ls[c.Rng.IntN(3)] = other
+			c.c03Shape("mfm", append(ls, k))
+		case 2:
+			c.c03Shape("dema", []int{1 + c.Rng.IntN(8), 1 + c.Rng.IntN(13), ln, k})
+		case 3:
+			c.c03Shape("apo", []int{1 + c.Rng.IntN(8), 1 + c.Rng.IntN(13), ln, k})
+		}
+	}
+}
+
 func runC03(c *Ctx) error {
-	c.header = "From Coq Require Import Floats ZArith List String.\nImport ListNotations.\nFrom Verif Require Import Base.Num Base.Stream Base.GenPrelude Gen.All Spec.Admissible Gen.AdmStrat Kahn.Kahn Kahn.Helpers Run.FlowRun Run.ValRun Run.C03Run.\nOpen Scope float_scope.\n"
+	c.header = "From Coq Require Import Floats ZArith List String.\nImport ListNotations.\nFrom Verif Require Import Base.Num Base.Stream Base.GenPrelude Gen.All Spec.Admissible Gen.AdmStrat Kahn.Kahn Kahn.Helpers Kahn.Patterns Run.FlowRun Run.ValRun Run.C03Run.\nOpen Scope float_scope.\n"
 	c.perFile = 150
 	c.Meta.Rule = "part 1: random pipelines (1-3 sources of 0..12 values with input capacity 0/1/3/16, then 2..8 helpers among Map, Buffered, Duplicate(2-3), Operate, Operate3, Skip, Shift, First, Head on open channel ends, a reader on every open end) " +
 		"built from the real helpers and run to quiescence (goroutine dump), against one run of the denoted Kahn network; " +
@@ -545,6 +635,14 @@ func runC03(c *Ctx) error {
 		var raw map[string]any
 		if err := readReplayInput(c.Replay, &raw); err != nil {
 			return err
+		}
+		if sh, ok := raw["shape"]; ok {
+			var ps []int
+			for _, x := range raw["params"].([]any) {
+				ps = append(ps, int(x.(float64)))
+			}
+			c.c03Shape(sh.(string), ps)
+			return nil
 		}
 		if _, ok := raw["pipeline"]; ok {
 			var in struct {
@@ -579,6 +677,7 @@ func runC03(c *Ctx) error {
 	for i := 0; i < c.N(400, 4000); i++ {
 		c.c03Net(c.randDesc())
 	}
+	c.c03Shapes(c.N(120, 1200))
 	fmt.Fprintf(os.Stderr, "c03: part 1 took %v\n", time.Since(t0))
 	defer func() { fmt.Fprintf(os.Stderr, "c03: all took %v\n", time.Since(t0)) }()
 	reps := c.N(1, 5)
